@@ -13,16 +13,16 @@ namespace CT
 
 /-- whatever clause we are in: the first token of the piece starts clause `k`, the rest stays there -/
 def Starts (k : Nat) (ts : List Tok) : Prop :=
-  ∀ c cur rest, cut c cur false (ts ++ rest) = (if k == c then ts else []) ++ cut c k false rest
+  ∀ p cur rest, cut p cur false (ts ++ rest) = (if p k then ts else []) ++ cut p k false rest
 /-- inside clause `k` the piece stays there -/
 def In (k : Nat) (ts : List Tok) : Prop :=
-  ∀ c rest, cut c k false (ts ++ rest) = (if k == c then ts else []) ++ cut c k false rest
+  ∀ p rest, cut p k false (ts ++ rest) = (if p k then ts else []) ++ cut p k false rest
 
-theorem Starts.toIn {k : Nat} {ts : List Tok} (h : Starts k ts) : In k ts := fun c rest => h c k rest
-theorem Inert.toIn {ts : List Tok} (h : Inert ts) (k : Nat) : In k ts := fun c rest => h c k rest
-theorem In.app {k : Nat} {a b : List Tok} (ha : In k a) (hb : In k b) : In k (a ++ b) := fun c rest => by
+theorem Starts.toIn {k : Nat} {ts : List Tok} (h : Starts k ts) : In k ts := fun p rest => h p k rest
+theorem Inert.toIn {ts : List Tok} (h : Inert ts) (k : Nat) : In k ts := fun p rest => h p k rest
+theorem In.app {k : Nat} {a b : List Tok} (ha : In k a) (hb : In k b) : In k (a ++ b) := fun p rest => by
   rw [List.append_assoc, ha, hb, ← List.append_assoc, ite_app]
-theorem Starts.app {k : Nat} {a b : List Tok} (ha : Starts k a) (hb : In k b) : Starts k (a ++ b) := fun c cur rest => by
+theorem Starts.app {k : Nat} {a b : List Tok} (ha : Starts k a) (hb : In k b) : Starts k (a ++ b) := fun p cur rest => by
   rw [List.append_assoc, ha, hb, ← List.append_assoc, ite_app]
 theorem Starts.cast {k : Nat} {a b : List Tok} (h : Starts k a) (e : a = b) : Starts k b := e ▸ h
 theorem In.cast {k : Nat} {a b : List Tok} (h : In k a) (e : a = b) : In k b := e ▸ h
@@ -31,18 +31,18 @@ theorem rank_indep {t : Tok} (h : t.equalsStr "CROSS" = false) (next : List Tok)
   simp [clauseRank, h]
 /-- a clause word (not `CROSS`) -/
 theorem Starts.word (w : String) (k : Nat) (h1 : clauseRank (opTok w) [] = some k) (h2 : (opTok w).equalsStr "CROSS" = false)
-    (h3 : (opTok w).equalsStr "AS" = false) : Starts k [opTok w] := fun c cur rest => by
+    (h3 : (opTok w).equalsStr "AS" = false) : Starts k [opTok w] := fun p cur rest => by
   simp only [List.singleton_append, cut_step, rank_indep h2, h1, Option.getD_some, Bool.false_eq_true, if_false, h3, Bool.and_false]
-theorem starts_cross : Starts 2 [opTok "CROSS", opTok "JOIN"] := fun c cur rest => by
+theorem starts_cross : Starts 2 [opTok "CROSS", opTok "JOIN"] := fun p cur rest => by
   have h1 : ∀ r, clauseRank (opTok "CROSS") (opTok "JOIN" :: r) = some 2 := fun r => by
     have : clauseRank (opTok "CROSS") [opTok "JOIN"] = some 2 := by decide
     exact this
   have h2 : (opTok "CROSS").equalsStr "AS" = false := by decide
-  have h3 := Starts.word "JOIN" 2 (by decide) (by decide) (by decide) c 2 rest
+  have h3 := Starts.word "JOIN" 2 (by decide) (by decide) (by decide) p 2 rest
   simp only [List.singleton_append] at h3
   simp only [List.cons_append, List.nil_append, cut_step (t := opTok "CROSS"), h1, Option.getD_some, Bool.false_eq_true, if_false, h2,
     Bool.and_false, h3]
-  by_cases hc : (2 == c) = true <;> simp [hc]
+  by_cases hc : p 2 = true <;> simp [hc]
 
 theorem st2 (w : String) (h : w ∈ ["JOIN", "INNER", "LEFT", "RIGHT", "FULL"] := by simp) : Starts 2 [opTok w] := by
   simp only [List.mem_cons, List.mem_nil_iff, or_false] at h
@@ -104,24 +104,55 @@ theorem clFrom : ∀ (fr : Option (List FromTable)), OptCl 1 (toksFrom3 d ch fr)
   | some (t :: ts) => Or.inr (by
       simp only [toksFrom3]
       exact ((Starts.word "FROM" 1 (by decide) (by decide) (by decide)).app (((iTable ch t).app (iTablesTail ch ts)).toIn 1)).cast rfl)
-theorem stJoin : ∀ (j : Join), joinOK3 d j = true → Starts 2 (toksJoin3 d ch j)
+/-- the head of a JOIN (`… JOIN table [AS alias]`, clause 2) and its `ON` condition (clause 8) -/
+def joinHd (d : Gen.D) (ch : Expr → Bool) : Join → List Tok
+  | .mk ty t _ => joinWords ty ++ toksTable3 d ch t
+def joinOn (d : Gen.D) (ch : Expr → Bool) : Join → List Tok
+  | .mk _ _ rule => toksRule3 d ch rule
+/-- what the cut keeps of a list of JOINs -/
+def joinsSel (d : Gen.D) (ch : Expr → Bool) (p : Nat → Bool) : List Join → List Tok
+  | [] => []
+  | j :: js => (if p 2 then joinHd d ch j else []) ++ ((if p 8 then joinOn d ch j else []) ++ joinsSel d ch p js)
+/-- a piece of which the cut keeps `A`, whatever clause we are in and whatever follows -/
+def Pc (p : Nat → Bool) (a A : List Tok) : Prop := ∀ cur rest, ∃ cur', cut p cur false (a ++ rest) = A ++ cut p cur' false rest
+theorem Pc.nil (p : Nat → Bool) : Pc p [] [] := fun cur rest => ⟨cur, rfl⟩
+theorem Pc.app {p : Nat → Bool} {a A b B : List Tok} (ha : Pc p a A) (hb : Pc p b B) : Pc p (a ++ b) (A ++ B) := fun cur rest => by
+  obtain ⟨c1, e1⟩ := ha cur (b ++ rest)
+  obtain ⟨c2, e2⟩ := hb c1 rest
+  exact ⟨c2, by rw [List.append_assoc, e1, e2, List.append_assoc]⟩
+theorem Pc.cast {p : Nat → Bool} {a A a' A' : List Tok} (h : Pc p a A) (e1 : a = a') (e2 : A = A') : Pc p a' A' := by
+  subst e1; subst e2; exact h
+theorem Starts.pc {k : Nat} {ts : List Tok} (h : Starts k ts) (p : Nat → Bool) : Pc p ts (if p k then ts else []) :=
+  fun cur rest => ⟨k, h p cur rest⟩
+theorem pcJoin (p : Nat → Bool) : ∀ (j : Join), joinOK3 d j = true →
+    Pc p (toksJoin3 d ch j) ((if p 2 then joinHd d ch j else []) ++ (if p 8 then joinOn d ch j else []))
   | .mk ty t none, h => by
     simp only [joinOK3, Bool.and_eq_true] at h
-    simp only [toksJoin3, toksRule3, List.append_nil]
-    exact (starts_joinWords h.1.1).app ((iTable ch t).toIn 2)
+    simp only [toksJoin3, toksRule3, joinHd, joinOn, List.append_nil]
+    exact (((starts_joinWords h.1.1).app ((iTable ch t).toIn 2)).pc p).cast rfl (by simp)
   | .mk ty t (some (.on e)), h => by
     simp only [joinOK3, ruleOK3, Bool.and_eq_true] at h
-    simp only [toksJoin3, toksRule3]
-    exact (starts_joinWords h.1.1).app (((iTable ch t).app (Inert.cons (dk "ON") (iE ch e h.2))).toIn 2)
+    simp only [toksJoin3, toksRule3, joinHd, joinOn]
+    have h1 := ((starts_joinWords h.1.1).app ((iTable (d := d) ch t).toIn 2)).pc p
+    have h2 := ((Starts.word "ON" 8 (by decide) (by decide) (by decide)).app ((iE ch e h.2).toIn 8)).pc p
+    exact (h1.app h2).cast (by simp) rfl
   | .mk ty t (some (.using f)), h => by simp [joinOK3, ruleOK3] at h
-theorem clJoins : ∀ (js : List Join), joinsOK3 d js = true → OptCl 2 (toksJoins3 d ch js)
-  | [], _ => Or.inl (by simp only [toksJoins3])
+theorem pcJoins (p : Nat → Bool) : ∀ (js : List Join), joinsOK3 d js = true → Pc p (toksJoins3 d ch js) (joinsSel d ch p js)
+  | [], _ => by simp only [toksJoins3, joinsSel]; exact Pc.nil p
   | j :: js, h => by
     simp only [joinsOK3, Bool.and_eq_true] at h
-    simp only [toksJoins3]
-    rcases clJoins js h.2 with e | hs
-    · rw [e, List.append_nil]; exact Or.inr (stJoin ch j h.1)
-    · exact Or.inr ((stJoin ch j h.1).app hs.toIn)
+    simp only [toksJoins3, joinsSel]
+    exact ((pcJoin ch p j h.1).app (pcJoins p js h.2)).cast rfl (by simp)
+/-- keeping clauses 2 and 8 keeps the whole JOIN segment; keeping clause 8 keeps the ON conditions -/
+theorem joinsSel_all : ∀ (js : List Join), joinsSel d ch (fun k => k == 2 || k == 8) js = toksJoins3 d ch js
+  | [] => rfl
+  | .mk ty t rule :: js => by simp [joinsSel, joinHd, joinOn, toksJoins3, toksJoin3, joinsSel_all js]
+def onToks (d : Gen.D) (ch : Expr → Bool) : List Join → List Tok
+  | [] => []
+  | j :: js => joinOn d ch j ++ onToks d ch js
+theorem joinsSel_on : ∀ (js : List Join), joinsSel d ch (· == 8) js = onToks d ch js
+  | [] => rfl
+  | j :: js => by simp [joinsSel, onToks, joinsSel_on js]
 theorem clOptE (kw : String) (k : Nat) (h1 : clauseRank (opTok kw) [] = some k) (h2 : (opTok kw).equalsStr "CROSS" = false)
     (h3 : (opTok kw).equalsStr "AS" = false) : ∀ (e : Option Expr), FragO3 d e = true → OptCl k (toksOptE3 d ch kw e)
   | none, _ => Or.inl (by simp only [toksOptE3])
@@ -168,18 +199,19 @@ theorem clLimit (lm : Option (Int × Option Int)) (h : limitOK lm = true) : OptC
     exact Or.inr ((hl.app ((Inert.cons (dull_int m h.2.1) (Inert.cons (dk ",") (Inert.one (dull_int n h.1.1)))).toIn 7)).cast rfl)
 
 /-! ### the chain -/
-theorem chain_end {k c : Nat} {a : List Tok} (ha : OptCl k a) : ∀ cur, cut c cur false a = (if k == c then a else []) := by
-  intro cur
+theorem OptCl.pc {k : Nat} {a : List Tok} (ha : OptCl k a) (p : Nat → Bool) : Pc p a (if p k then a else []) := by
   rcases ha with rfl | hs
-  · simp [cut]
-  · have := hs c cur []
-    simpa [cut] using this
-theorem chain_step {k c : Nat} {a b X : List Tok} (ha : OptCl k a) (hb : ∀ cur, cut c cur false b = X) :
-    ∀ cur, cut c cur false (a ++ b) = (if k == c then a else []) ++ X := by
+  · exact (Pc.nil p).cast rfl (by simp)
+  · exact hs.pc p
+theorem chain_end {p : Nat → Bool} {a A : List Tok} (ha : Pc p a A) : ∀ cur, cut p cur false a = A := by
   intro cur
-  rcases ha with rfl | hs
-  · simp [hb]
-  · rw [hs, hb]
+  obtain ⟨c1, e1⟩ := ha cur []
+  simpa [cut] using e1
+theorem chain_step {p : Nat → Bool} {a A b X : List Tok} (ha : Pc p a A) (hb : ∀ cur, cut p cur false b = X) :
+    ∀ cur, cut p cur false (a ++ b) = A ++ X := by
+  intro cur
+  obtain ⟨c1, e1⟩ := ha cur b
+  rw [e1, hb]
 
 /-- the piece number `k` of the rendering of a SELECT -/
 def seg (d : Gen.D) (ch : Expr → Bool) (k : Nat) : Select → List Tok
@@ -194,18 +226,20 @@ def seg (d : Gen.D) (ch : Expr → Bool) (k : Nat) : Select → List Tok
     | 6 => toksOrder3 d ch ob
     | 7 => toksLimit lm
     | _ => []
+def joinsOf : Select → List Join
+  | .mk _ _ _ _ _ js _ _ _ _ _ _ _ _ => js
 
 /-- the rendering is the concatenation of its pieces -/
 theorem toksS3_segs (s : Select) :
     toksS3 d ch s = seg d ch 0 s ++ (seg d ch 1 s ++ (seg d ch 2 s ++ (seg d ch 3 s ++ (seg d ch 4 s ++ (seg d ch 5 s ++ (seg d ch 6 s ++ seg d ch 7 s)))))) := by
   cases s; simp [toksS3, seg]
 
-/-- **the cut of a fragment SELECT's rendering**: for every clause number `c`, the cut of the token list returns what the pieces of
-clause `c` are -/
-theorem cut_all (s : Select) (h : FragS3 d s = true) (c : Nat) :
-    clauseToks c (toksS3 d ch s) = (if 0 == c then seg d ch 0 s else []) ++ ((if 1 == c then seg d ch 1 s else []) ++
-      ((if 2 == c then seg d ch 2 s else []) ++ ((if 3 == c then seg d ch 3 s else []) ++ ((if 4 == c then seg d ch 4 s else []) ++
-      ((if 5 == c then seg d ch 5 s else []) ++ ((if 6 == c then seg d ch 6 s else []) ++ (if 7 == c then seg d ch 7 s else []))))))) := by
+/-- **the cut of a fragment SELECT's rendering**: whatever clauses `p` selects, the cut of the token list returns the pieces of the
+selected clauses (of the JOIN segment: the heads and / or the ON conditions) -/
+theorem cut_all (s : Select) (h : FragS3 d s = true) (p : Nat → Bool) :
+    cut p 0 false (toksS3 d ch s) = (if p 0 then seg d ch 0 s else []) ++ ((if p 1 then seg d ch 1 s else []) ++
+      (joinsSel d ch p (joinsOf s) ++ ((if p 3 then seg d ch 3 s else []) ++ ((if p 4 then seg d ch 4 s else []) ++
+      ((if p 5 then seg d ch 5 s else []) ++ ((if p 6 then seg d ch 6 s else []) ++ (if p 7 then seg d ch 7 s else []))))))) := by
   cases s with
   | mk ws dist cols fr lats js wh gb hv ob sb db cb lm =>
     obtain ⟨rfl, rfl, rfl, rfl, rfl⟩ := AT.fragS3_shape h
@@ -213,20 +247,44 @@ theorem cut_all (s : Select) (h : FragS3 d s = true) (c : Nat) :
     obtain ⟨⟨⟨⟨⟨⟨⟨⟨⟨hc, _⟩, hfr⟩, hjs⟩, hwh⟩, hgb⟩, hhv⟩, hob⟩, hlm⟩, _⟩ := h
     have isel : Inert (opTok "SELECT" :: ((if dist then [opTok "DISTINCT"] else []) ++ toksCols3 d ch cols)) :=
       Inert.cons (dk "SELECT") ((Inert.ite dist (Inert.one (dk "DISTINCT"))).app (iCols ch cols hc))
-    have tail := chain_step (c := c) (clFrom (d := d) ch fr) (chain_step (clJoins ch js hjs)
-      (chain_step (clOptE ch "WHERE" 3 (by decide) (by decide) (by decide) wh hwh) (chain_step (clGroup ch gb hgb)
-      (chain_step (clOptE ch "HAVING" 5 (by decide) (by decide) (by decide) hv hhv) (chain_step (clOrder ch ob hob)
-      (chain_end (clLimit lm hlm)))))))
-    have := isel c 0 (toksFrom3 d ch fr ++ (toksJoins3 d ch js ++ (toksOptE3 d ch "WHERE" wh ++ (toksGroup3 d ch gb ++
+    have tail := chain_step ((clFrom (d := d) ch fr).pc p) (chain_step (pcJoins ch p js hjs)
+      (chain_step ((clOptE ch "WHERE" 3 (by decide) (by decide) (by decide) wh hwh).pc p) (chain_step ((clGroup ch gb hgb).pc p)
+      (chain_step ((clOptE ch "HAVING" 5 (by decide) (by decide) (by decide) hv hhv).pc p) (chain_step ((clOrder ch ob hob).pc p)
+      (chain_end ((clLimit lm hlm).pc p)))))))
+    have := isel p 0 (toksFrom3 d ch fr ++ (toksJoins3 d ch js ++ (toksOptE3 d ch "WHERE" wh ++ (toksGroup3 d ch gb ++
       (toksOptE3 d ch "HAVING" hv ++ (toksOrder3 d ch ob ++ toksLimit lm))))))
     rw [tail 0] at this
-    simp only [clauseToks, toksS3, seg, List.cons_append, List.append_assoc] at this ⊢
+    simp only [toksS3, seg, joinsOf, List.cons_append, List.append_assoc] at this ⊢
     exact this
 
-theorem cut_toksS3 (s : Select) (h : FragS3 d s = true) (k : Nat) : clauseToks k (toksS3 d ch s) = seg d ch k s := by
-  rw [cut_all ch s h k]
+theorem joinsSel_none (p : Nat → Bool) (h2 : p 2 = false) (h8 : p 8 = false) : ∀ js, joinsSel d ch p js = []
+  | [] => rfl
+  | j :: js => by simp [joinsSel, h2, h8, joinsSel_none p h2 h8 js]
+/-- **every clause but JOIN**: the cut returns the printer's piece -/
+theorem cut_toksS3 (s : Select) (h : FragS3 d s = true) (k : Nat) (hk : k ≠ 2) (hk8 : k ≠ 8) : clauseToks k (toksS3 d ch s) = seg d ch k s := by
+  unfold clauseToks
+  rw [cut_all ch s h, joinsSel_none ch (· == k) (by simpa using fun e => hk e.symm) (by simpa using fun e => hk8 e.symm)]
   match k with
-  | 0 | 1 | 2 | 3 | 4 | 5 | 6 | 7 => simp
-  | k + 8 => cases s; simp [seg]
+  | 0 | 1 | 3 | 4 | 5 | 6 | 7 => simp
+  | 2 => exact absurd rfl hk
+  | 8 => exact absurd rfl hk8
+  | k + 9 => cases s; simp [seg]
+/-- **the JOIN segment** (clauses 2 and 8) and **the ON conditions** (clause 8) -/
+theorem cutJoins_toksS3 (s : Select) (h : FragS3 d s = true) : cutJoins (toksS3 d ch s) = seg d ch 2 s := by
+  unfold cutJoins
+  rw [cut_all ch s h, joinsSel_all]
+  cases s; simp [seg, joinsOf]
+theorem cutOns_toksS3 (s : Select) (h : FragS3 d s = true) : cutOns (toksS3 d ch s) = onToks d ch (joinsOf s) := by
+  unfold cutOns clauseToks
+  rw [cut_all ch s h, joinsSel_on]
+  simp
+/-- the ON conditions are cut out of the JOIN segment alone in the same way -/
+theorem cutOns_seg (s : Select) (h : FragS3 d s = true) : cutOns (seg d ch 2 s) = onToks d ch (joinsOf s) := by
+  cases s with
+  | mk ws dist cols fr lats js wh gb hv ob sb db cb lm =>
+    obtain ⟨rfl, rfl, rfl, rfl, rfl⟩ := AT.fragS3_shape h
+    simp only [FragS3, Bool.and_eq_true] at h
+    have := chain_end (pcJoins ch (· == 8) js h.1.1.1.1.1.1.2) 0
+    simp only [cutOns, clauseToks, seg, joinsOf, this, joinsSel_on]
 
 end CT
